@@ -109,9 +109,12 @@ structure State where
   sessions : List Session
   schemas : List Str       -- event types with a schema in the registry
   remembered : List Str    -- names in the materialisation catalog
+  /-- The auth WAL (`storage.rs`): every `persist_user` appends the whole user record (id, key,
+  active, roles, *all* permission entries — also the all-false ones), oldest first. -/
+  wal : List User
   deriving DecidableEq, Repr
 
-def State.empty : State := ⟨[], [], [], []⟩
+def State.empty : State := ⟨[], [], [], [], []⟩
 
 def findUser (st : State) (id : Str) : Option User := st.users.find? (fun u => u.id == id)
 
@@ -411,7 +414,8 @@ def createUser (alnum : Char → Bool) (st : State) (id key : Str) (roles : List
     if utf8Len key > maxSecretKeyLength then (.keyTooLong, st)
     else match findUser st id with
       | some _ => (.exists_, st)
-      | none => (.ok, { st with users := putUser st.users ⟨id, key, true, roles, []⟩ })
+      | none => (.ok, { st with users := putUser st.users ⟨id, key, true, roles, []⟩,
+                                wal := st.wal ++ [⟨id, key, true, roles, []⟩] })
 
 /-- `AuthManager::revoke_key`: mark inactive, drop every session of the user. -/
 def revokeKey (st : State) (id : Str) : ApiResult × State :=
@@ -419,20 +423,36 @@ def revokeKey (st : State) (id : Str) : ApiResult × State :=
   | none => (.noUser, st)
   | some u =>
     (.ok, { st with users := putUser st.users { u with active := false },
-                    sessions := st.sessions.filter (fun s => !(s.user == id)) })
+                    sessions := st.sessions.filter (fun s => !(s.user == id)),
+                    wal := st.wal ++ [{ u with active := false }] })
 
 /-- `AuthManager::grant_permission` (sets the permission set of one event type). -/
 def setPermission (st : State) (id et : Str) (p : Perm) : ApiResult × State :=
   match findUser st id with
   | none => (.noUser, st)
-  | some u => (.ok, { st with users := putUser st.users { u with perms := putPerm u.perms et p } })
+  | some u => (.ok, { st with users := putUser st.users { u with perms := putPerm u.perms et p },
+                              wal := st.wal ++ [{ u with perms := putPerm u.perms et p }] })
 
 /-- `AuthManager::revoke_permission` (removes the entry). -/
 def dropPermission (st : State) (id et : Str) : ApiResult × State :=
   match findUser st id with
   | none => (.noUser, st)
   | some u =>
-    (.ok, { st with users := putUser st.users { u with perms := u.perms.filter (fun p => !(p.1 == et)) } })
+    (.ok, { st with users := putUser st.users { u with perms := u.perms.filter (fun p => !(p.1 == et)) },
+                    wal := st.wal ++ [{ u with perms := u.perms.filter (fun p => !(p.1 == et)) }] })
+
+/-- `load_users` + `dedupe_latest` (`db_ops.rs`): the latest record of every user id wins, the
+record is taken whole. (Records carry a second-granular `persisted_at`; on ties the later record
+in the file wins (`>=`). A clock stepping backwards between two writes is not modelled.) -/
+def loadUsers (wal : List User) : List User := wal.foldl putUser []
+
+/-- Server restart as far as auth goes (`FrontendContext::from_config`): a fresh `AuthManager`
+whose user and permission caches are rebuilt from the auth WAL; session tokens are gone. -/
+def reload (st : State) : State := { st with users := loadUsers st.wal, sessions := [] }
+
+/-- The caches hold exactly what a reload would produce (every operation persists the record it
+then inserts into the caches). -/
+def WalInSync (st : State) : Prop := st.users = loadUsers st.wal
 
 def existingPerm (st : State) (id et : Str) : Perm :=
   match findUser st id with
